@@ -678,6 +678,8 @@ fn enc_block(id: &str, job: &EncJob, model: &mut Model, spec: Option<&SpecTab>) 
 		{
 			n_ok += 1;
 			if n_ok <= 1500 {found.keys.push(fnv(FNV_INIT, &b[..*n]));}
+			// the output window: exactly as long as the encoding is enough; one byte less is an overflow that writes nothing
+			if let Some(what) = exact_fit(&i, *n, b) {found.fail(format!("enc {}", show_fields(job.tag, f)), what);}
 		}
 		if id == "C01"
 		{
@@ -1074,6 +1076,16 @@ pub fn run(id: &str, cx: &mut Cx)
 			Some(("enc", rest)) => single_enc(id, cx, rest),
 			Some(("dec", rest)) => single_dec(cx, rest),
 			Some(("spec", rest)) => single_spec(cx, rest),
+			Some(("values", rest)) => public_values(cx, Some(rest.trim())),
+			Some(("rset", rest)) =>
+			{
+				let w: Vec<&str> = rest.split(' ').collect();
+				match (w.first().and_then(|x| x.parse::<u16>().ok()), w.get(1).and_then(|x| x.parse::<u64>().ok()))
+				{
+					(Some(bits), Some(seed)) => {let mut found = Found::default(); rset_case(bits, seed, &mut found); merge(cx, vec![found]);},
+					_ => cx.report.oracle_fail(input.clone(), "unrecognised replay input"),
+				}
+			},
 			_ => cx.report.oracle_fail(input.clone(), "unrecognised replay input (expected `enc <instr>`, `dec <hex>` or `spec <hex>`)"),
 		}
 		return;
@@ -1083,6 +1095,203 @@ pub fn run(id: &str, cx: &mut Cx)
 		"C03" => run_c03(cx),
 		_ => run_enc(id, cx),
 	}
+}
+
+/// `encode` into a window of exactly `n` bytes (the length it produces) and into `n - 1` bytes
+fn exact_fit(i: &Instruction, n: usize, b: &[u8; 4]) -> Option<String>
+{
+	let i = *i;
+	let r = guarded(move ||
+	{
+		let mut a = [0xA5u8; 4];
+		let ra = i.encode(&mut a[..n]);
+		let mut s = [0xA5u8; 4];
+		let rs = i.encode(&mut s[..n - 1]);
+		(ra, a, rs, s)
+	});
+	match r
+	{
+		Err(p) => Some(format!("encode into an exactly sized window panicked: {p}")),
+		Ok((ra, a, rs, s)) =>
+		{
+			if !matches!(ra, Ok(m) if m == n) || a[..n] != b[..n] || a[n..].iter().any(|x| *x != 0xA5)
+			{
+				Some(format!("encode into a window of exactly {n} bytes gives {ra:?} / {} (a 4-byte window gives {})", hex(&a), hex(&b[..n])))
+			}
+			else if !matches!(rs, Err(EncodeError::Overflow{need, have}) if need == n && have == n - 1) || s.iter().any(|x| *x != 0xA5)
+			{
+				Some(format!("encode into a window of {} bytes gives {rs:?} and leaves {} (expected Overflow {{need: {n}, have: {}}} and nothing written)", n - 1, hex(&s), n - 1))
+			}
+			else {None}
+		},
+	}
+}
+
+// ---------------------------------------------------------------------------------------------------------
+// every value the PUBLIC conversions hand out (`try_from(0..=255)`), not a fixed list of the architectural ones: a value the
+// crate accepts beyond the architecture's must be rejected by the encoder (it has no encoding) — never emitted as something else
+
+fn arch_check(found: &mut Found, input: String, i: &Instruction, want: Option<Vec<u8>>)
+{
+	let e = real_enc(i);
+	match (&e, &want)
+	{
+		(Enc::Ok(n, b), Some(w)) if b[..*n] == w[..] =>
+		{
+			let d = real_dec(&b[..*n]);
+			if d != Ok(Ok((*n, *i))) {found.fail(input, format!("{} decodes to `{}`, not to the original {i:?}", hex(w), show_dec(&d)));}
+		},
+		(Enc::Unrep, None) => (),
+		_ => found.fail(input, format!("{i:?}: the ARMv6-M encoding is {}, encode gives `{}`", want.map(|w| hex(&w)).unwrap_or_else(|| "none (must be rejected)".to_owned()), show_enc(&e))),
+	}
+}
+
+fn public_values(cx: &mut Cx, only: Option<&str>)
+{
+	let mut found = Found::default();
+	let h = |x: u32| -> Vec<u8> {(x as u16).to_le_bytes().to_vec()};
+	for v in 0..=255u8
+	{
+		if only.is_some_and(|o| o != format!("{v}")) {continue;}
+		// conditions: 0..=13 -> B<c> (T1), 14 -> B (T2), anything else has no encoding
+		if let Ok(c) = Condition::try_from(v)
+		{
+			found.hit("values: condition accepted by try_from", 1);
+			if u8::from(c) != v {found.fail(format!("values {v}"), format!("Condition::try_from({v}) converts back to {}", u8::from(c)));}
+			for off in [-2048i32, -258, -256, -4, -2, 0, 2, 254, 256, 2046, 2048, 1, -1]
+			{
+				let want = match v
+				{
+					0..=13 if off % 2 == 0 && (-256..=254).contains(&off) => Some(h(0xD000 | (v as u32) << 8 | ((off >> 1) as u32 & 0xFF))),
+					14 if off % 2 == 0 && (-2048..=2046).contains(&off) => Some(h(0xE000 | ((off >> 1) as u32 & 0x7FF))),
+					_ => None,
+				};
+				found.evaluations += 1;
+				arch_check(&mut found, format!("values {v}"), &Instruction::B{cond: c, off}, want);
+			}
+		}
+		// registers: 0..=15
+		if let Ok(r) = Register::try_from(v)
+		{
+			found.hit("values: register accepted by try_from", 1);
+			if u8::from(r) != v {found.fail(format!("values {v}"), format!("Register::try_from({v}) converts back to {}", u8::from(r)));}
+			let v32 = v as u32;
+			let cases: [(Instruction, Option<Vec<u8>>); 5] = [
+				(Instruction::Bx{off: r}, if v < 15 {Some(h(0x4700 | v32 << 3))} else {None}),
+				(Instruction::Mov{flags: false, dst: r, src: ImmReg::Register(Register::R1)}, if v < 16 {Some(h(0x4600 | (v32 & 8) << 4 | 1 << 3 | (v32 & 7)))} else {None}),
+				(Instruction::Mvn{dst: r, value: Register::R2}, if v < 8 {Some(h(0x43C0 | 2 << 3 | v32))} else {None}),
+				(Instruction::Push{registers: {let mut s = RegisterSet::new(); s.add(r); s}}, if v < 8 || v == 14 {Some(h(0xB400 | if v == 14 {0x100} else {1 << v32}))} else {None}),
+				(Instruction::Mrs{dst: r, src: SystemReg::PRIMASK}, if v < 16 && v != 13 && v != 15 {let mut b = h(0xF3EF); b.extend(h(0x8000 | v32 << 8 | 16)); Some(b)} else {None}),
+			];
+			for (i, want) in cases {found.evaluations += 1; arch_check(&mut found, format!("values {v}"), &i, want);}
+		}
+		// special registers: the architectural SYSm table (B5.2.2/B5.2.3), by number
+		if let Ok(s) = SystemReg::try_from(v)
+		{
+			found.hit("values: special register accepted by try_from", 1);
+			if u8::from(s) != v {found.fail(format!("values {v}"), format!("SystemReg::try_from({v}) converts back to {}", u8::from(s)));}
+			let arch = SYS.contains(&(v as i64));
+			if arch && sysreg_of(v) != Some(s) {found.fail(format!("values {v}"), format!("SystemReg::try_from({v}) is {s:?}, the architecture names SYSm {v} {:?}", sysreg_of(v)));}
+			let mrs = if arch {let mut b = h(0xF3EF); b.extend(h(0x8000 | 3 << 8 | v as u32)); Some(b)} else {None};
+			let msr = if arch {let mut b = h(0xF380 | 4); b.extend(h(0x8800 | v as u32)); Some(b)} else {None};
+			found.evaluations += 2;
+			arch_check(&mut found, format!("values {v}"), &Instruction::Mrs{dst: Register::R3, src: s}, mrs);
+			arch_check(&mut found, format!("values {v}"), &Instruction::Msr{dst: s, src: Register::R4}, msr);
+		}
+		else if SYS.contains(&(v as i64)) {found.fail(format!("values {v}"), format!("the architectural special register SYSm {v} is not accepted by SystemReg::try_from"));}
+	}
+	merge(cx, vec![found]);
+}
+
+// ---------------------------------------------------------------------------------------------------------
+// register lists built through EVERY public route of `RegisterSet` (of / add one by one, in any order, with repeats / set_bits in
+// overlapping chunks / detours through remove, unset_bits, clear): the same set, hence equal instructions, equal encodings, and
+// decode(encode) == the instruction whichever way its list was built. Input `rset <bits> <seed>`.
+
+fn rset_routes(bits: u16, rng: &mut Rng) -> Vec<(String, RegisterSet)>
+{
+	let regs: Vec<Register> = (0..16u8).filter(|k| bits >> k & 1 == 1).map(|k| Register::try_from(k).unwrap()).collect();
+	let mut out = vec![("of".to_owned(), RegisterSet::of(bits))];
+	// add one by one, shuffled, with repeats
+	let mut order = regs.clone();
+	for k in (1..order.len()).rev() {let j = rng.below(k as u64 + 1) as usize; order.swap(k, j);}
+	let mut s = RegisterSet::new();
+	for r in &order {s.add(*r); if rng.chance(1, 3) {s.add(*rng.pick(&order));}}
+	for r in &order {if rng.chance(1, 4) {s.add(*r);}}
+	out.push(("add (shuffled, repeats)".to_owned(), s));
+	// set_bits in overlapping chunks
+	let mut s = RegisterSet::new();
+	let m1 = bits & (rng.next() as u16 | 0x00FF);
+	let m2 = bits & (rng.next() as u16 | 0xFF00);
+	s.set_bits(m1); s.set_bits(m2); s.set_bits(bits); s.set_bits(bits & m1);
+	out.push(("set_bits (overlapping)".to_owned(), s));
+	// of + set_bits of the same bits
+	let mut s = RegisterSet::of(bits);
+	s.set_bits(bits);
+	out.push(("of + set_bits".to_owned(), s));
+	// too many, then trimmed by remove / unset_bits
+	let extra = rng.next() as u16;
+	let mut s = RegisterSet::of(bits | extra);
+	let over = (bits | extra) & !bits;
+	s.unset_bits(over & 0x0F0F);
+	for k in 0..16u8 {if over >> k & 1 == 1 {s.remove(Register::try_from(k).unwrap());}}
+	s.unset_bits(0);
+	out.push(("of(more) + unset_bits + remove".to_owned(), s));
+	// cleared and rebuilt; Default / From where they exist are covered by `new`
+	let mut s = RegisterSet::of(extra);
+	s.clear();
+	s.set_bits(bits & 0xFF);
+	for r in &regs {s.add(*r);}
+	out.push(("clear + set_bits + add".to_owned(), s));
+	// collected from the set's own iterator
+	let mut s = RegisterSet::new();
+	for r in RegisterSet::of(bits) {s.add(r);}
+	out.push(("iter + add".to_owned(), s));
+	out
+}
+
+fn rset_case(bits: u16, seed: u64, found: &mut Found)
+{
+	let mut rng = Rng::new(seed);
+	let routes = rset_routes(bits, &mut rng);
+	let input = format!("rset {bits} {seed}");
+	let (n0, s0) = (&routes[0].0, routes[0].1);
+	for (name, s) in &routes
+	{
+		found.evaluations += 1;
+		if s.get_bits() != bits || s.count() != bits.count_ones() as usize || s.is_empty() != (bits == 0) || s.iter().count() != bits.count_ones() as usize
+		{
+			found.fail(input.clone(), format!("the set built by `{name}` reports bits {:04x}, count {}, {} iterated; it holds {:04x}", s.get_bits(), s.count(), s.iter().count(), bits));
+		}
+		if *s != s0 {found.fail(input.clone(), format!("the same register list built by `{name}` and by `{n0}` compares unequal: {s:?} vs {s0:?}"));}
+		for mk in [|s: RegisterSet| Instruction::Push{registers: s}, |s: RegisterSet| Instruction::Pop{registers: s},
+			|s: RegisterSet| Instruction::Ldm{addr: Register::R1, registers: s}, |s: RegisterSet| Instruction::Stm{addr: Register::R2, registers: s}]
+		{
+			let (i, i0) = (mk(*s), mk(s0));
+			if i != i0 {found.fail(input.clone(), format!("{i:?} (list built by `{name}`) != {i0:?} (built by `{n0}`)"));}
+			let (e, e0) = (real_enc(&i), real_enc(&i0));
+			if show_enc(&e) != show_enc(&e0) {found.fail(input.clone(), format!("{i:?} built by `{name}` encodes to `{}`, built by `{n0}` to `{}`", show_enc(&e), show_enc(&e0)));}
+			if let Enc::Ok(n, b) = &e
+			{
+				let d = real_dec(&b[..*n]);
+				if d != Ok(Ok((*n, i))) {found.fail(input.clone(), format!("{i:?} (list built by `{name}`) encodes to {} which decodes to `{}`: not equal to the original", hex(&b[..*n]), show_dec(&d)));}
+			}
+		}
+	}
+}
+
+fn rset_section(cx: &mut Cx)
+{
+	let mut found = Found::default();
+	let n = if cx.thorough() {65536} else {6000};
+	for k in 0..n
+	{
+		let bits = if cx.thorough() {k as u16} else if k < 512 {k as u16} else if k < 1024 {(k as u16 - 512) << 7} else {cx.rng.next() as u16};
+		let seed = cx.rng.next();
+		rset_case(bits, seed, &mut found);
+	}
+	found.hit("register lists built through every public route", n as u64);
+	merge(cx, vec![found]);
 }
 
 fn run_enc(id: &str, cx: &mut Cx)
@@ -1102,6 +1311,8 @@ interval plus the type maximum); B: all offsets -2051..2050 for all 15 condition
 	let found = run_jobs(cx, &jobs, |_, job, model| enc_block(id, job, model, spec_ref));
 	merge(cx, found);
 	cx.report.exhaustive = true;
+	public_values(cx, None);
+	rset_section(cx);
 
 	// a few single requests: samples, and the output-buffer overflow behaviour
 	for text in ["adc 0 1", "add 0 8 8 1 0", "add 0 13 13 0 508", "bl -4", "b 14 -2048", "msr 16 3", "udfw 4660", "pop 32769", "cps 1", "ldm 0 0", "adc 8 0", "cmp 15 1 0"]
